@@ -140,8 +140,8 @@ def c07(tier, replay):
     run.cov["scenarios"] = len(summ["scenarios"])
     run.cov["scenarios_with_every_expiry_point"] = sum(1 for s in summ["scenarios"] if s["exhaustive"])
     model_search(run, tier, 3)
-    if not q:
-        model_search(run, tier, 4, True, 600, "MC_Search_null")
+    # iteration 4 with null-move nodes (the aborted null-move sub-search is where a sentinel turns into an ordinary bound)
+    model_search(run, tier, 4, True, 120 if q else 1200, "MC_Search_null")
     run.cov["rule"] = ("scenarios = random small endgames, mate positions, third-repetition histories and game positions with their history; for each, "
                        "a reference run to the end of iteration 3 under the virtual clock, then ONE RUN PER EXPIRY INDEX k = 0..K (all of them when "
                        "K <= cap, else all below cap/2 plus a random sample); TLC checks per run: infos/sends are prefixes of the reference (or exactly "
